@@ -135,7 +135,9 @@ def compile_code(
 
     main_module = src[""] if isinstance(src, dict) else src
     if "pytrapic:" in main_module:
-        for line in main_module.splitlines():
+        # split at source line ends only: str.splitlines() also splits at \x0b, \x0c, \x1c-\x1e,
+        # \x85, \u2028 and \u2029, which may occur inside string literals on a code line
+        for line in main_module.replace("\r\n", "\n").replace("\r", "\n").split("\n"):
             if "pytrapic:" not in line:
                 continue
             line = line.strip()
